@@ -56,6 +56,11 @@ func cliJob(bin string, j job) any {
 	outPath := ""
 	add := func(a ...string) { args = append(args, a...); inprocArgs = append(inprocArgs, a...) }
 	outKind := strings.TrimSuffix(j.str("out"), "+s") // "file+s": -o together with the stdout flag (the file still is the destination)
+	oldContent := "OLD"
+	if strings.HasSuffix(outKind, "+long") { // "existing+long": the file that is there is longer than any HTML written over it
+		outKind = strings.TrimSuffix(outKind, "+long")
+		oldContent = strings.Repeat("OLD CONTENT\n", 40000)
+	}
 	if strings.HasSuffix(j.str("out"), "+s") {
 		add("-s")
 	}
@@ -64,7 +69,7 @@ func cliJob(bin string, j job) any {
 		outPath = filepath.Join(dir, "out.html")
 		add("-o", outPath)
 		if outKind == "existing" {
-			os.WriteFile(outPath, []byte("OLD"), 0o644)
+			os.WriteFile(outPath, []byte(oldContent), 0o644)
 		}
 	case "unwritable":
 		outPath = filepath.Join(dir, "nodir", "out.html")
@@ -123,7 +128,7 @@ func cliJob(bin string, j job) any {
 	exits := []int{}
 	for i := 0; i < reps; i++ {
 		if outKind == "existing" {
-			os.WriteFile(outPath, []byte("OLD"), 0o644)
+			os.WriteFile(outPath, []byte(oldContent), 0o644)
 		} else if outPath != "" {
 			os.Remove(outPath)
 		}
@@ -137,7 +142,7 @@ func cliJob(bin string, j job) any {
 	if outPath != "" {
 		if b, err := os.ReadFile(outPath); err == nil {
 			switch {
-			case string(b) == "OLD":
+			case string(b) == oldContent:
 				fileState = "old"
 			case hasContent && string(b) == libHTML:
 				fileState = "lib"
